@@ -47,6 +47,9 @@ pub struct RefTrace {
     pub stdout: String,
     pub exit_code: i32,
     pub regions: Vec<(u64, u64)>,
+    /// (index of the first step executed after delivery, signal number)
+    #[serde(default)]
+    pub signals: Vec<(usize, i32)>,
 }
 
 pub struct ElfInfo {
@@ -265,6 +268,8 @@ pub fn trace(exe: &str, max_steps: usize) -> Result<RefTrace, String> {
     let mut stacks: Vec<Vec<Frame>> = vec![];
     let mut stack_idx: std::collections::HashMap<Vec<Frame>, u32> = Default::default();
     let exit_code;
+    let mut signals: Vec<(usize, i32)> = vec![];
+    let mut in_handler: Vec<usize> = vec![];
     loop {
         let r = getregs(pid)?;
         let sidx = match stack_idx.get(&shadow) {
@@ -317,10 +322,39 @@ pub fn trace(exe: &str, max_steps: usize) -> Result<RefTrace, String> {
             exit_code = -libc::WTERMSIG(st);
             break;
         }
-        if !(libc::WIFSTOPPED(st) && libc::WSTOPSIG(st) == libc::SIGTRAP) {
+        if !libc::WIFSTOPPED(st) {
             return Err(format!("unexpected stop status {st:#x} at step {}", steps.len()));
         }
+        if libc::WSTOPSIG(st) != libc::SIGTRAP {
+            // signal-delivery-stop: deliver the signal and single-step into its handler; the
+            // kernel-built handler frame is recorded as a pseudo call frame until rt_sigreturn
+            let sig = libc::WSTOPSIG(st);
+            let at = getregs(pid)?;
+            unsafe { libc::ptrace(libc::PTRACE_SINGLESTEP, pid, 0, sig as libc::c_long) };
+            let st2 = wait(pid)?;
+            if libc::WIFEXITED(st2) {
+                exit_code = libc::WEXITSTATUS(st2);
+                break;
+            }
+            if libc::WIFSIGNALED(st2) {
+                exit_code = -libc::WTERMSIG(st2);
+                break;
+            }
+            let n2 = getregs(pid)?;
+            signals.push((steps.len(), sig));
+            if n2.rsp < at.rsp {
+                shadow.push(Frame { ret: at.rip, cfa: n2.rsp + 8, entry: n2.rip });
+                in_handler.push(shadow.len());
+            }
+            continue;
+        }
         let n = getregs(pid)?;
+        if !in_handler.is_empty() && code[0] == 0x0f && code[1] == 0x05 && r.rax == 15 {
+            // rt_sigreturn: the handler frame is gone
+            let depth = in_handler.pop().unwrap();
+            shadow.truncate(depth.saturating_sub(1));
+            continue;
+        }
         if is_call && n.rsp == r.rsp - 8 {
             shadow.push(Frame { ret: r.rip + len, cfa: r.rsp, entry: n.rip });
         } else if is_ret && !shadow.is_empty() && n.rsp >= r.rsp + 8 {
@@ -339,6 +373,7 @@ pub fn trace(exe: &str, max_steps: usize) -> Result<RefTrace, String> {
         stdout: so,
         exit_code,
         regions: info.regions,
+        signals,
     })
 }
 
@@ -349,7 +384,7 @@ pub fn trace_cached(exe: &str) -> Result<(RefTrace, String), String> {
     let mut env: Vec<(String, String)> = std::env::vars().collect();
     env.sort();
     env.hash(&mut envh);
-    let cache = format!("{exe}.reftrace.v3.{:016x}.json", envh.finish());
+    let cache = format!("{exe}.reftrace.v4.{:016x}.json", envh.finish());
     let exe_m = std::fs::metadata(exe).and_then(|m| m.modified()).ok();
     if let (Ok(m), Some(em)) = (std::fs::metadata(&cache).and_then(|m| m.modified()), exe_m) {
         if m >= em {
